@@ -31,6 +31,13 @@ def s_bytes():
     return b"value-of-s_bytes:" + bytes(range(256)) * 8 + b":end"
 
 
+def s_frame():
+    vlog.hit("s_frame")
+    import pandas as pd
+
+    return pd.DataFrame({"value-of": ["s_frame"] * 50, "n": list(range(50))})
+
+
 def s_none():
     vlog.hit("s_none")
     return None
@@ -68,6 +75,7 @@ EXPECTED = {
     "n_leaf_a": "value-of-n_leaf_a:" + BIG[:500],
     "n_leaf_b": ("value-of-n_leaf_b", 7, BIG[:300]),
 }
+EXPECTED["s_frame"] = s_frame.__wrapped__() if hasattr(s_frame, "__wrapped__") else None
 EXPECTED["n_mid"] = ("value-of-n_mid", EXPECTED["n_leaf_a"], EXPECTED["n_leaf_b"])
 EXPECTED["n_top"] = ("value-of-n_top", EXPECTED["n_mid"])
 
@@ -89,8 +97,14 @@ def act_keep(path, fn_name, data="data", cache=None):
         set_local(root, data, cache)
         return dds.keep(path, globals()[fn_name])
 
-    run.__name__ = "keep(%s,%s%s)" % (path, fn_name, "" if data == "data" else "," + data)
+    run.__name__ = "keep(%s,%s%s%s)" % (path, fn_name, "" if data == "data" else "," + data, "" if cache is None else ",cache_objects=%r" % cache)
     return run
+
+
+def frame_value():
+    import pandas as pd
+
+    return pd.DataFrame({"value-of": ["s_frame"] * 50, "n": list(range(50))})
 
 
 def act_eval_top(data="data"):
